@@ -156,3 +156,23 @@ package remote
 //@   props C04
 //@ func retryStrategy
 //@   props C04
+
+// ---- C15: a multi-request prefetch covers the whole requested range ----
+// With a prefetch chunk size above the chunk size, Cache splits [offset, offset+size) into consecutive pieces of
+// fetchSize bytes (a whole number of chunks, at least one), the last one clipped to the end: every piece is non-empty,
+// starts where the previous one ended, and the loop ends only when the end of the range is reached.
+// (a fact of integer arithmetic the solvers do not find by themselves: a product of positive factors is positive, and at
+// least as large as either factor)
+//@ axiom[C15] forall x int64, y int64 :: x > 0 && y > 0 ==> x * y >= x && x * y >= y
+//@ func (b *blob) Cache
+//@   props C15
+//@   arith math
+//@   taggedonly
+//@   requires b.chunkSize > 0 && 0 <= offset && 0 <= size
+//@   requires forall j int :: 0 <= j && j < len(opts) ==> opts[j] != nil
+//@   loop 0 invariant b.chunkSize > 0
+//@   loop 1 invariant[C15] fetchSize > 0 && offset <= i && end == offset + size
+//@   loop 1 step[C15] i == prev(i) + fetchSize
+//@   assert[C15] before "eg.Go(func() error {" : l > 0
+//@   assert[C15] before "eg.Go(func() error {" : i + l == min(i + fetchSize, end)
+//@   assert[C15] before "return eg.Wait()" : i >= end
